@@ -145,7 +145,7 @@ func init() {
 			{Name: "VerifH_grpc_send", Covers: []string{"sent", "sent-above-receive-limit", "refused", "stats-outpayload", "compressed", "compressed-empty"}},
 			{Name: "VerifH_proto_wire", Covers: []string{"over-limit", "prefix>=2^63", "message"}},
 			{Name: "VerifH_http_recv_body", Covers: []string{"upload", "multi-chunk", "empty-upload"}},
-			{Name: "VerifH_http_recv_stream", Covers: []string{"clean-eof", "truncated", "empty-stream", "over-limit-refused"}},
+			{Name: "VerifH_http_recv_stream", MaxPathsT: 6000000, Covers: []string{"clean-eof", "truncated", "empty-stream", "over-limit-refused"}},
 		},
 		Bounds: map[string]string{
 			"quick":    "limits symbolic in 1..6; unary bodies of 0..7 bytes over every read partition; gRPC frames with a symbolic flag byte, all 2^32 length prefixes, 0..7 payload bytes present, fake decompression to 0..8 bytes; replies of 0..8 bytes with independent symbolic send and receive limits; varint prefixes over all of uint64; HttpBody uploads of every length 0..3*limit+1",
@@ -157,7 +157,7 @@ func init() {
 	addProp(&PropSpec{
 		ID: "C06",
 		Harnesses: []HarnessSpec{
-			{Name: "VerifH_http_recv_stream", Covers: []string{"clean-eof", "truncated", "eof-with-data", "empty-stream"}},
+			{Name: "VerifH_http_recv_stream", MaxPathsT: 6000000, Covers: []string{"clean-eof", "truncated", "eof-with-data", "empty-stream"}},
 			{Name: "VerifH_http_recv_body", Covers: []string{"upload", "multi-chunk", "empty-upload"}},
 			{Name: "VerifH_http_send", Covers: []string{"stream", "unary", "httpbody"}},
 			{Name: "VerifH_grpc_recv", Covers: []string{"delivered", "truncated"}},
@@ -202,7 +202,7 @@ func init() {
 		Harnesses: []HarnessSpec{
 			{Name: "VerifH_serveHTTP_params", Covers: []string{"query-param", "body-star", "body-field", "nested-bound"}},
 			{Name: "VerifH_params", Covers: []string{"string", "json-name", "bytes", "bytes-rejected", "enum", "enum-rejected", "repeated", "nested", "through-list", "through-map", "unknown-key", "int32", "int32-rejected", "bool", "bool-rejected", "int64", "uint32", "uint32-rejected", "int-out-of-range-rejected", "int-at-range-limit", "float", "float-rejected"}},
-			{Name: "VerifH_http_recv_stream", Covers: []string{"clean-eof"}},
+			{Name: "VerifH_http_recv_stream", MaxPathsT: 6000000, Covers: []string{"clean-eof"}},
 		},
 		Bounds: map[string]string{
 			"quick":    "query keys by proto and JSON name, dotted paths, repeated keys (2 values), unknown symbolic keys of 1..4 bytes, paths through repeated and map fields; values: strings 0..3 symbolic bytes, bytes fields: every text of 0..4 bytes against the proto3-JSON base64 rule, enum names / numbers of 1..4 ASCII bytes, int32 text of 1..4 bytes; bodies of 1..3 symbolic bytes into the whole message or the body field",
@@ -565,7 +565,7 @@ func init() {
 	ext("C13", "two goroutines compressing through one pooled CompressorGzip at the same time (real gzip interpreted, scheduling points at pool operations and destination writes, race detection on)",
 		HarnessSpec{Name: "VerifH_gzip_conc", Concurrent: true, StepsQ: 40000000, StepsT: 40000000, Covers: []string{"two-compressions"}})
 	ext("C13", "HTTP client streams (every read partition, as under C06) with the byte pool scribbled over between two receives, as a concurrent request would do",
-		HarnessSpec{Name: "VerifH_http_recv_stream", Covers: []string{"clean-eof", "truncated"}})
+		HarnessSpec{Name: "VerifH_http_recv_stream", MaxPathsT: 6000000, Covers: []string{"clean-eof", "truncated"}})
 
 	ext("C18", "calls to a PROXIED backend (real RegisterConn + createConnHandler, in-memory backend stream under the engine / real grpc.Server natively, goroutine model with context bound 1): the four streaming shapes, succeeding and failing backend, interceptors + stats handler on and off",
 		HarnessSpec{Name: "VerifH_proxy_intercept", Concurrent: true, Covers: []string{"options-off", "unary-interceptor", "stream-interceptor", "failing", "interceptor-replaces-reply", "interceptor-rewrites-metadata"}})
